@@ -50,7 +50,7 @@ man = dict(
                   kind_free_text="contract-based deductive verification of the real code: Kani 0.68 function/harness contracts on the real crate (CBMC), Verus on functions extracted mechanically each run")],
     checks=checks,
     not_applicable=nal,
-    notes="exit 0 = all obligations discharged; exit 1 + VIOLATION = a registered obligation got a definite negative verdict; exit 2 + INCONCLUSIVE = undecided (never an alarm). See DESIGN.md.",
+    notes="quick and thorough currently run the same units for every property (no deeper unit fitted the budget); exit 0 = all obligations discharged; exit 1 + VIOLATION = a registered obligation got a definite negative verdict; exit 2 + INCONCLUSIVE = undecided (never an alarm). See DESIGN.md.",
 )
 json.dump(man, open(os.path.join(HERE, "MANIFEST.json"), "w"), indent=1)
 print("claimed:", sorted(claimed), "n/a:", [x["property_id"] for x in nal])
